@@ -200,8 +200,10 @@ BAD_ARGS = {
 
 
 def check_invalid(case, rec):
-    rec.note(case, True, [case["engine"], case["bad"]])
-    f = getattr(pyrepseq, case["engine"])
+    rec.note(case, True, [case["engine"], case["bad"], case.get("mode", "default")])
+    f0 = getattr(pyrepseq, case["engine"])
+    mode = case.get("mode")
+    f = (lambda *a, **k: f0(*a, custom_distance="hamming", **k)) if mode == "hamming" else f0
     good = case["seqs"]
     if case["bad"] in BAD_SEQS:
         must_raise(f"invalid:{case['bad']}", f, BAD_SEQS[case["bad"]]())
@@ -222,6 +224,7 @@ def enum_invalid(tier):
     for e in SELF:
         for b in sorted(BAD_SEQS) + sorted(BAD_ARGS):
             yield {"engine": e, "bad": b, "seqs": ["CAAA", "CAAD", "CDDD"]}
+            yield {"engine": e, "bad": b, "seqs": ["CAAA", "CAAD", "CDDD"], "mode": "hamming"}
 
 
 SUBS = [
